@@ -623,6 +623,16 @@ theorem spill_m8_breaks :
       = some [[1, 2], [5, 6, 7, 8]] := by
   decide
 
+/-- **stream_write_roundtrip**: the output side of a merge pass — a `Stream` filling chain blocks of
+any size `cap`, passing full blocks on, `Poison` passing the last block with its valid size, and
+`WriteAndRecycle` appending the valid bytes — leaves exactly the bytes written in the file. -/
+theorem stream_write_roundtrip (cap : Nat) (pad : Buf) (fuel : Nat) (bytes : Buf) :
+    writeAndRecycle [] (streamToBlocks cap pad fuel bytes) = bytes := by
+  simpa using stream_write_aux cap pad fuel bytes []
+
+example : streamToBlocks 4 [9, 9, 9, 9] 5 [1, 2, 3, 4, 5, 6] = [⟨[1, 2, 3, 4], 4⟩, ⟨[5, 6, 9, 9, 9, 9], 2⟩] := by decide
+example : streamToBlocks 2 [9, 9] 5 [1, 2, 3, 4] = [⟨[1, 2], 2⟩, ⟨[3, 4], 2⟩, ⟨[9, 9], 0⟩] := by decide
+
 /-- **spill_records_roundtrip** (connection to `storeRuns_roundtrip`): runs of `s`-byte records
 written as bytes, logged in bytes, read back at the logged offsets and cut into records are the
 runs the record-level model delivers — the non-empty runs, unchanged. -/
